@@ -158,7 +158,9 @@ class Operator:
                         self.logger.debug(
                             "The antecedents of the universal effect hold."
                         )
-                        grounded_conditional_effect.apply(current_state)
+                        grounded_conditional_effect.apply(
+                            current_state, previous_state
+                        )
 
     def is_applicable(self, state: State) -> bool:
         """Checks if the action is applicable on the current state.
@@ -209,7 +211,7 @@ class Operator:
                 )
                 continue
 
-            effect.apply(new_state)
+            effect.apply(new_state, previous_state)
 
         self._apply_universal_effects(previous_state, new_state)
         return new_state
